@@ -198,6 +198,8 @@ class Engine:
             out.append("F9F10")
         if L.align and small_unit_bits(t):
             out.append("F23")
+        if L.align and has_eof(t):
+            out.append("F30")
         return out
 
     def model_read(self, L, data, pos, want, what, sigs=()):
